@@ -593,6 +593,10 @@ func grpcDecodeTimeout(timeout string) (time.Duration, error) {
 	if unit == 0 {
 		return 0, protocolError("timeout %q has invalid unit", timeout)
 	}
+	if digits := timeout[:len(timeout)-1]; digits == "" || digits[0] < '0' || digits[0] > '9' {
+		// ParseInt would accept a sign, which the protocol does not allow
+		return 0, protocolError("invalid timeout %q", timeout)
+	}
 	num, err := strconv.ParseInt(timeout[:len(timeout)-1], 10 /* base */, 64 /* bitsize */)
 	if err != nil || num < 0 {
 		return 0, protocolError("invalid timeout %q", timeout)
